@@ -148,9 +148,9 @@ CLAIMS.update({
             "technique": "Coq proof of set-iteration-order irrelevance (partial) + differential purity runs across hash seeds"},
 })
 NOT_CLAIMED = {}
-NOTES = ("Three genuine defects of the pinned tree were repaired by unguarded fix: commits in /repo "
+NOTES = ("Four genuine defects of the pinned tree were repaired by unguarded fix: commits in /repo "
          "(56046f6 reg_access.can_access: write after own read; 8dc64c1 chk_terminals: iterate dead-end removal; "
-         "f550bc1 chk_non_empty: empty unit name); one open known finding (C11, memoryAccess naming an undeclared "
+         "f550bc1 chk_non_empty: empty unit name; 8da1782 load_isa: duplicate mnemonics detected on the upper-case key); one open known finding (C11, memoryAccess naming an undeclared "
          "capability -> AssertionError); see known_findings.json and DESIGN.md section 6.  The implementation only runs in "
          "this sandbox with the fastcore-1.7 compatibility shim (DESIGN.md 1.1); the baseline command does not use it.  "
          "Beyond the per-property theorems, coq/props/E2E.v composes them along the whole pipeline and "
